@@ -111,6 +111,16 @@ def gen_plan(seed, tier="quick"):
     if h.random() < 0.3:
         plan["prelude"] = [[h.choice(["limit", "limit", "set", "query"]), h.randrange(4),
                             h.choice([tc, tc, tc, 65536, h.getrandbits(16)])] for _ in range(h.randrange(1, 4))]
+        if h.random() < 0.6:
+            # another installation in the same process: a unit with the same short address as the
+            # one addressed afterwards, holding other values; queries by any selector (half of them
+            # the selector that is asked again afterwards)
+            plan["prelude_short"] = units[0]["short"]
+            plan["prelude_values"] = {str(v): h.getrandbits(16) for v in SPEC_QUERY.values()}
+            for p in plan["prelude"]:
+                if p[0] == "query":
+                    p[1] = (SPEC_QUERY_NAMES.index(plan["selector_name"])
+                            if kind == "query" and h.random() < 0.5 else h.randrange(len(SPEC_QUERY_NAMES)))
     if kind == "badarg":
         plan["bad"] = r.choice(["tc-65536", "tc-negative", "tc-huge", "tc-float", "tc-none", "tc-str", "query-int",
                                 "query-str", "limit-tc-65536"])
@@ -159,14 +169,16 @@ def run_plan(plan):
     for pk, psel, ptc in plan.get("prelude") or []:
         # earlier calls in the same process (same or another value, another selector),
         # against a scratch unit: judged is only what they may leave behind in the library
-        scratch = busim.Bus([_mk({"short": 9, "groups": 0, "dtr": [1, 2, 3], "values": {}}, 99)])
+        ps = plan.get("prelude_short", 9)
+        scratch = busim.Bus([_mk({"short": ps, "groups": 0, "dtr": [1, 2, 3],
+                                  "values": plan.get("prelude_values") or {}}, 99)])
         try:
             if pk == "limit":
-                pg = SetDT8TcLimit(GearShort(9), psel, ptc)
+                pg = SetDT8TcLimit(GearShort(ps), psel, ptc)
             elif pk == "set":
-                pg = SetDT8ColourValueTc(GearShort(9), ptc)
+                pg = SetDT8ColourValueTc(GearShort(ps), ptc)
             else:
-                pg = QueryDT8ColourValue(GearShort(9), getattr(colour.QueryColourValueDTR, SPEC_QUERY_NAMES[psel]))
+                pg = QueryDT8ColourValue(GearShort(ps), getattr(colour.QueryColourValueDTR, SPEC_QUERY_NAMES[psel]))
             busim.run_sequence(pg, scratch, cap=60, log=EventLog())
         except Exception:                       # noqa: BLE001 - a prelude with a bad argument simply fails
             pass
